@@ -41,13 +41,16 @@ struct Case {
     port: u16,
     /// a tape is inserted and playing during the whole schedule (its EAR *input* is not the speaker)
     tape: bool,
+    /// the schedule starts from a machine that has just loaded an SZX snapshot standing this many T-states into its
+    /// frame (0 = no load): the samples of the rest of that frame sit where frame time puts them
+    szx: usize,
     evs: Vec<Ev>,
 }
 
 impl Case {
     fn text(&self) -> String {
         format!(
-            "sched m128={} rate={} vol={} beeper={} ay={} port={:04x} tape={} policy={} evs={}",
+            "sched m128={} rate={} vol={} beeper={} ay={} port={:04x} tape={} szx={} policy={} evs={}",
             self.m128 as u8,
             self.rate,
             self.vol,
@@ -55,6 +58,7 @@ impl Case {
             self.ay as u8,
             self.port,
             self.tape as u8,
+            self.szx,
             match self.policy {
                 Policy::Always => "always",
                 Policy::Sometimes => "sometimes",
@@ -82,7 +86,7 @@ impl Case {
         if it.next()? != "sched" {
             return None;
         }
-        let mut c = Case { m128: false, rate: 44100, vol: 100, beeper: true, ay: false, policy: Policy::Always, port: 0x00FE, tape: false, evs: vec![] };
+        let mut c = Case { m128: false, rate: 44100, vol: 100, beeper: true, ay: false, policy: Policy::Always, port: 0x00FE, tape: false, szx: 0, evs: vec![] };
         for kv in it {
             let (k, v) = kv.split_once('=')?;
             match k {
@@ -93,6 +97,7 @@ impl Case {
                 "ay" => c.ay = v == "1",
                 "port" => c.port = u16::from_str_radix(v, 16).ok()?,
                 "tape" => c.tape = v == "1",
+                "szx" => c.szx = v.parse().ok()?,
                 "policy" => {
                     c.policy = match v {
                         "always" => Policy::Always,
@@ -259,6 +264,27 @@ fn check_case(model: &mut Model, c: &Case, mut rep: Option<&mut Report>) -> Opti
         Pop { ev: usize, codes: Vec<usize>, bad_value: Option<(f32, f32)>, spec: Option<String> },
     }
     let mut chks: Vec<Chk> = vec![];
+    if c.szx > 0 {
+        let mut f = b"ZXST".to_vec();
+        f.extend_from_slice(&[1, 4, if c.m128 { 2 } else { 1 }, 0]);
+        f.extend_from_slice(b"SPCR");
+        f.extend_from_slice(&8u32.to_le_bytes());
+        f.extend_from_slice(&[0, 0, 0, 0, 0, 0, 0, 0]);
+        f.extend_from_slice(b"Z80R");
+        f.extend_from_slice(&37u32.to_le_bytes());
+        let mut z = [0u8; 37];
+        z[29..33].copy_from_slice(&((c.szx % l) as u32).to_le_bytes());
+        f.extend_from_slice(&z);
+        let _ = e.load_snapshot(rustzx_core::host::Snapshot::Szx(VAsset::new(f)));
+        while e.next_audio_sample().is_some() {}
+        fc = e.verif_frame_clocks();
+        // the model is told where the frame stands: time passes without a sample being due before that point
+        // only if the real mixer agrees; a plain wait of that length describes it
+        if fc > 0 {
+            lines.push(format!("w {:x} {:x}", fc, pos_f64(spf, fc, l)));
+            chks.push(Chk::None);
+        }
+    }
     // speaker timeline of the current frame, for the edge spec (always policy)
     let mut frame_init = 0usize;
     let mut cur_level = 0usize;
@@ -606,7 +632,7 @@ fn gen_case(r: &mut Rng, m128: bool, rate: usize, policy: Policy, frames: usize)
     }
     // a third of the schedules write the speaker through a port whose high byte lies in contended RAM
     let port = *r.pick(&[0x00FEu16, 0xBFFE, 0x7FFE]);
-    Case { m128, rate, vol, beeper, ay, policy, port, tape: r.chance(1, 4), evs }
+    Case { m128, rate, vol, beeper, ay, policy, port, tape: r.chance(1, 4), szx: if r.chance(1, 5) { 2000 + r.below(60000) as usize } else { 0 }, evs }
 }
 
 fn shrink(model: &mut Model, c: &Case, key: &str) -> Case {
@@ -658,7 +684,7 @@ fn shrink(model: &mut Model, c: &Case, key: &str) -> Case {
     for (f, v) in [(0usize, 0u8), (1, 0), (2, 0)] {
         let mut a = cur.clone();
         match f {
-            0 => { a.ay = false; a.tape = false; }
+            0 => { a.ay = false; a.tape = false; a.szx = 0; }
             1 => a.beeper = true,
             _ => a.vol = 100,
         }
@@ -969,7 +995,7 @@ distinct = (machine, rate, policy, volume class, beeper, ay, frames with writes)
         for rate in [8000usize, 44100, 48000] {
             for k in 0..=14usize {
                 let c = Case {
-                    m128, rate, vol: 100, beeper: true, ay: false, policy: Policy::Always, port: 0x00FE, tape: k % 5 == 4,
+                    m128, rate, vol: 100, beeper: true, ay: false, policy: Policy::Always, port: 0x00FE, tape: k % 5 == 4, szx: if k % 7 == 3 { 20000 + 1500 * k } else { 0 },
                     evs: vec![Ev::Wait(l + 2 - k), Ev::Out(0x10), Ev::Wait(l), Ev::Out(0x00), Ev::Wait(l + k), Ev::Out(0x18), Ev::Wait(2 * l)],
                 };
                 if let Some(d) = check_case(&mut model, &c, Some(&mut rep)) {
